@@ -117,6 +117,7 @@ class ProgGen:
 		self.funcs: list = []     # (name, [(pname, type)], ret, tags)
 		self.lines: list[str] = []
 		self.uses_callable = False
+		self.dead: list = []
 
 	# ---- utils ------------------------------------------------------------------------
 	def on(self, flag: str) -> bool:
@@ -362,6 +363,9 @@ class ProgGen:
 		if c == 8:
 			return self.tern(cx, t, d)
 		cx.tags.add('float-int-mix')
+		if self.chance(0.5):  # int operand on the left: the result type must still be float
+			op, p = self.pick([('*', P_MUL), ('+', P_ADD), ('-', P_ADD)])
+			return (f'{self.wrap(self.leaf(cx, T_INT), p)} {op} {self.wrap(self.e_float(cx, t, d - 1), p + 1)}', p)
 		return (f'{self.wrap(self.e_float(cx, t, d - 1), P_MUL)} * {self.wrap(self.leaf(cx, T_INT), P_UNARY)}', P_MUL)
 
 	def e_str(self, cx: Ctx, t, d: int):
@@ -540,9 +544,12 @@ class ProgGen:
 	def block(self, cx: Ctx, ind: str, n: int, new_scope: bool = True) -> list[str]:
 		"""Statements of a nested block: names declared inside stay inside (C++ block scope)."""
 		inner = cx.child() if new_scope else cx
+		before = set(cx.env)
 		out: list[str] = []
 		for _ in range(n):
 			out.extend(self.stmt(inner, ind))
+		# names that went out of scope with this block may be declared again in a sibling block (same type, as a C++ programmer would)
+		self.dead += [(name, t) for name, t in inner.env.items() if name not in before and name.startswith('v')]
 		return out or [ind + 'pass']
 
 	def stmt(self, cx: Ctx, ind: str) -> list[str]:
@@ -552,6 +559,10 @@ class ProgGen:
 		if c <= 7:
 			t = self.value_type()
 			name = self.fresh()
+			reuse = [(n, ty) for n, ty in self.dead if n not in cx.env and n not in cx.readonly]
+			if reuse and self.chance(0.35) and self.on('sibling-name-reuse'):
+				name, t = self.pick(reuse)
+				cx.tags.add('sibling-name-reuse')
 			e = self.wrap(self.expr(cx, t), 0)
 			annotated = self.chance(0.35) or t[0] == 'float'
 			cx.tags.add('decl-annotated' if annotated else 'decl-inferred')
@@ -863,6 +874,7 @@ class ProgGen:
 
 	def method_body(self, cx: Ctx, cname: str, ret) -> list[str]:
 		"""Expression over self fields and parameters."""
+		self.dead = []
 		for f, t in self.all_fields(cname):
 			cx.env[f'self.{f}'] = t
 			cx.readonly.add(f'self.{f}')
@@ -874,6 +886,7 @@ class ProgGen:
 
 	def gen_func(self, entry: bool) -> None:
 		r = self.rnd
+		self.dead = []
 		name = f'f{len(self.funcs)}'
 		nparams = r.randint(1, 3)
 		params = []
@@ -936,3 +949,28 @@ class ProgGen:
 
 def gen_program(rnd, exclude: set | None = None, size: int = 2) -> dict:
 	return ProgGen(rnd, exclude, size).program()
+
+
+def gen_two_modules(rnd, exclude: set | None = None, name_a: str = 'mod_a', name_b: str = 'mod_b') -> dict:
+	"""Module A (classes, enum, functions) and module B that imports A's definitions and uses them."""
+	ga = ProgGen(rnd, exclude, size=1)
+	pa = ga.program()
+	gb = ProgGen(rnd, exclude, size=2)
+	gb.n = ga.n + 100
+	gb.classes = dict(ga.classes)
+	gb.enums = dict(ga.enums)
+	gb.funcs = list(ga.funcs)
+	imported = sorted(ga.classes) + sorted(ga.enums) + [f[0] for f in ga.funcs]
+	nfun = rnd.randint(2, 3)
+	start = len(gb.funcs)
+	if gb.chance(0.6) and gb.classes:
+		gb.gen_class(sorted(ga.classes)[-1])  # a class of B deriving from a class of A
+	for i in range(nfun):
+		gb.gen_func(entry=True)
+	header = ['from enum import Enum'] if gb.enums else []
+	if gb.uses_callable:
+		header.append('from collections.abc import Callable')
+	header.append(f'from {name_a} import {", ".join(imported)}')
+	source_b = '\n'.join(header + [''] + gb.lines) + '\n'
+	tags = sorted(set().union(*[f[3] for f in gb.funcs[start:]]) | getattr(gb, 'class_tags', set()))
+	return {'a': pa['source'], 'b': source_b, 'name_a': name_a, 'name_b': name_b, 'tags': tags, 'imported': imported}
